@@ -123,6 +123,23 @@ def repeated_name_cases():
     return out
 
 
+def huge_buffer_cases():
+    """production-sized buffers (the repository's configurations use 5e11)
+    holding a few units: 'empty' must still mean exactly full free space"""
+    from ..scopes import mkobs, mkcfg, mkcase, dag, CLUSTERS
+    out = []
+    for cap in (5e11, 4e10, 2 ** 53):
+        for r, d in ((1, 2), (3, 1)):
+            obs = [mkobs("a", 0, d, r, 1, 1, "wa"),
+                   mkobs("b", 4, 1, 1, 1, 1, "wa")]
+            cfg = mkcfg(CLUSTERS[2][0], obs, (cap, 10), (cap, 10), 2, 2)
+            for alg in ({"kind": "queue"}, {"kind": "batch", "p": 1,
+                                            "min": 1}):
+                out.append(("S-huge-buffer", mkcase(
+                    cfg, {"wa": dag("chain2", [2, 1], [0])}, alg)))
+    return out
+
+
 def run(rep, tier, seed):
     rep.rule = RULE
     truth_table(rep)
@@ -149,7 +166,7 @@ def run(rep, tier, seed):
                               {"engine": "E2", "M": M,
                                "history": [list(h) for h in hist]},
                               detail, "E2-cluster-M%d" % M)
-    cs = cases(tier, seed) + repeated_name_cases()
+    cs = cases(tier, seed) + repeated_name_cases() + huge_buffer_cases()
     e1.sweep(rep, cs, monitors_for, {})
     rep.states = len(rep.states) + e2_states
     e1.conformance(rep, cs[::max(1, len(cs) // 40)])
